@@ -54,8 +54,9 @@ func (s *Service) findPruneableHeaders(
 			"to", estimatedCutoffHeight, "error", err)
 		return nil, err
 	}
-	// ensures genesis block gets pruned
-	if lastPruned.Height() == 1 {
+	// ensures genesis block gets pruned, as well as the tail of the header store
+	// when it moved past the checkpoint (see lastPruned)
+	if lastPruned.Height() == 1 || lastPruned.Height() > s.checkpoint.LastPrunedHeight {
 		headers = append([]*header.ExtendedHeader{lastPruned}, headers...)
 	}
 
